@@ -482,6 +482,7 @@ func workC08(w *run.W) {
 				return
 			}
 			nt := applyEdits(text, ee)
+			w.Touch()
 			w.Count("rewrites", 1)
 			w.Count("rw_"+strings.SplitN(name, "+", 2)[0], 1)
 			w.Nontrivial(nt)
